@@ -42,7 +42,8 @@ PROPS['C01'] = {
     'assumptions': _COMPILER_ASSUMPTIONS,
     'required_classes': {'all': ['decided-by-group>=2', 'nr-listed-by-groups-with-different-actions',
                                  'default-for-nr-above-every-listed', 'errno-returned', 'program>255',
-                                 'arch:x86_64', 'arch:i386', 'arch:arm', 'arch:aarch64', 'whole-table-group']},
+                                 'arch:x86_64', 'arch:i386', 'arch:arm', 'arch:aarch64', 'whole-table-group',
+                                 'value-compiled-for-another-architecture-before']},
     'units': [
         {'test': 'TestC01Groups', 'checks': {'quick': 16000, 'thorough': 120000}, 'shards': {'quick': 16, 'thorough': 16},
          'timeout': {'quick': 300, 'thorough': 3000}},
@@ -91,11 +92,12 @@ PROPS['C02'] = {
              '= 49x49 pairs x 8 operations x 6 indices x 3 byte-order modes (native = the order the package detected itself, little/big = '
              'override hook with seccomp_data encoded accordingly); (2) rapid-drawn pairs incl. v, v+-1, v xor 2^32, halves swapped, one bit flipped; '
              'oracle = Go uint64 relations; a case is non-trivial iff actual != operand and the two halves fall in different relation '
-             'classes (<,=,>), or for the bit tests the overlap is in exactly one half; 1/4 of the rapid cases carry 1-3 alternative single-condition entries for the same syscall and argument (OR), with actual values whose high word equals an operand\'s low word; distinct by hash of the case JSON'),
+             'classes (<,=,>), or for the bit tests the overlap is in exactly one half; 1/4 of the rapid cases carry 1-3 alternative single-condition entries for the same syscall and argument (OR), with actual values whose high word equals an operand\'s low word; 1/3 place the entry among entries for other syscalls (before it, between it and its alternatives, plain names); distinct by hash of the case JSON'),
     'assumptions': _COMPILER_ASSUMPTIONS + ['big-endian layout is reached through the byte-order override hook on a little-endian host'],
     'required_classes': {'all': ['%s/arg%d/%s' % (op, a, o) for op in ('Equal', 'NotEqual', 'GreaterThan', 'LessThan', 'GreaterOrEqual', 'LessOrEqual', 'BitsSet', 'BitsNotSet')
                                  for a in range(6) for o in ('native', 'little', 'big')] +
-                         ['halves-in-different-relation-classes', 'bits-overlap-in-exactly-one-half']},
+                         ['halves-in-different-relation-classes', 'bits-overlap-in-exactly-one-half', 'alternative-entries-for-the-same-argument',
+                          'entry-among-entries-for-other-syscalls', 'alternatives-not-adjacent']},
     'units': [
         {'test': 'TestC02Grid', 'shards': {'quick': 8, 'thorough': 8}, 'timeout': {'quick': 300, 'thorough': 600}},
         {'test': 'TestC02Random', 'checks': {'quick': 160000, 'thorough': 40000000}, 'shards': {'quick': 8, 'thorough': 16},
@@ -183,10 +185,11 @@ PROPS['C13'] = {
              '2..16 goroutines released on a barrier compile deep or shallow copies (sharing all slices) while doing arch lookups and text conversions, any race report '
              'fails; text = FilterFlag/Action text forms of 0..15 and random values repeated 64 times; processes = 6..12 fresh processes compile the same seeded corpus '
              'and print digests; a case is non-trivial iff the policy has >= 2 same-name conditional entries (merge path), or copies share slices, or the flag has >= 2 '
-             'known bits, or it is a cross-process round; history cases may modify the value in place between compilations (must equal a fresh equal value); unit text-processes compares the text forms of 64/400 fresh processes; distinct by hash of the case JSON'),
+             'known bits, or it is a cross-process round; history cases may modify the value in place between compilations, re-target it to another architecture or share its group slice with a policy for another architecture (must equal a fresh equal value); unit text-processes compares the text forms of 64/400 fresh processes; distinct by hash of the case JSON'),
     'assumptions': ['schedules are sampled (barrier start, 2..16 goroutines), not enumerated', 'the Go race detector reports the races that occur in the sampled schedules',
                     '"caller\'s policy" = exported fields and slice headers; the unexported arch cache may be filled in'],
-    'required_classes': {'all': ['same-name-entries-merged', 'interleaved-with-other-policies', 'shared-slices', 'concurrent', 'text', 'processes', 'text-forms-across-processes', 'modified-between-compilations:default', 'modified-between-compilations:group-action']},
+    'required_classes': {'all': ['same-name-entries-merged', 'interleaved-with-other-policies', 'shared-slices', 'concurrent', 'text', 'processes', 'text-forms-across-processes', 'modified-between-compilations:default', 'modified-between-compilations:group-action',
+                                 'modified-between-compilations:retarget-other-architecture', 'modified-between-compilations:share-groups-other-architecture']},
     'units': [
         {'test': 'TestC13History', 'checks': {'quick': 8000, 'thorough': 400000}, 'shards': {'quick': 8, 'thorough': 16}, 'timeout': {'quick': 300, 'thorough': 3000}},
         {'test': 'TestC13Concurrent', 'race': True, 'checks': {'quick': 1200, 'thorough': 60000}, 'shards': {'quick': 6, 'thorough': 8},
@@ -278,7 +281,7 @@ _KERNEL_ASSUMPTIONS = ['running kernel 6.18 with seccomp filter, TSYNC and CONFI
 
 PROPS['C08'] = {
     'level': 'exploration',
-    'rule': ('cases = (ABI amd64|386, probe policy, no_new_privs, flags 0..3, probe events, strace flag): policies decide only about six harmless probe syscalls (names, conditions on all six arguments, '
+    'rule': ('cases = (ABI amd64|386, probe policy, no_new_privs, flags 0..3, probe events, strace flag, prior: in 1/6 the second thread first installs a filter of its own, so that a thread-sync load is refused - nil is then only acceptable if the policy is in force): policies decide only about six harmless probe syscalls (names, conditions on all six arguments, '
              '1..4 groups, optionally an allow group over the whole table => long programs, default allow/errno/kill_process/log/trace); one fresh child per case installs it with LoadFilter and '
              'issues 20..60 raw probe calls with arbitrary register values from the loading thread and from a second thread; oracle: reference decision -> observed result (normal value / EPERM / '
              'ENOSYS for trace / SIGSYS death exactly at the first kill_process probe); the sock_fprog captured immediately before seccomp(2) must equal the independently compiled program '
@@ -287,7 +290,7 @@ PROPS['C08'] = {
     'assumptions': _KERNEL_ASSUMPTIONS + ['trap / kill_thread / user_notif are decided by the interpreter checks only'],
     'required_classes': {'all': ['abi:amd64', 'abi:386', 'flag:0', 'flag:1', 'flag:2', 'flag:3', 'program>255', 'decided-by-group>=2',
                                  'argument-condition-outcome-differs-between-probes', 'killed-by-SIGSYS-at-the-expected-probe', 'probe-denied-EPERM',
-                                 'probe-trace-ENOSYS', 'probe-allowed', 'strace-cross-check']},
+                                 'probe-trace-ENOSYS', 'probe-allowed', 'strace-cross-check', 'second-thread-carries-a-divergent-filter', 'thread-sync-refused-and-reported']},
     'units': [
         {'test': 'TestC08Kernel', 'checks': {'quick': 960, 'thorough': 100000}, 'shards': {'quick': 16, 'thorough': 16}, 'helpers': _KCHILD,
          'timeout': {'quick': 400, 'thorough': 3300}},
@@ -305,10 +308,12 @@ PROPS['C09'] = {
              'operation every thread issues the six probes and all Seccomp / Seccomp_filters / NoNewPrivs fields are read; invariants: nil => one more filter on the caller with the policy\'s '
              'decisions in force, and with thread-sync every thread equal to the caller; not attached => non-nil and nothing changed except the caller\'s no_new_privs when requested; '
              'pre-kernel failure => error, no seccomp(2) call, no field changed; Supported() true and changes nothing; a history is non-trivial iff a refused or failed load is followed by a further step; '
-             'one operation may inject the fault \'seccomp(2) answers ENOSYS\' into every command thread; distinct by hash of the case JSON'),
+             'one operation may inject the fault \'seccomp(2) answers ENOSYS\' into every command thread; policies that deny nothing (allow-only, log-only) are loaded too; '
+             'nested-load = while a load is between its preparation and the installation (schedule-point hook) a complete load of a different policy runs on another thread: each thread must end up under its own policy; distinct by hash of the case JSON'),
     'assumptions': _KERNEL_ASSUMPTIONS + ['fault kinds are the kernel\'s own refusal modes, provoked by crafted process states; they are enumerated by class, not by injection'],
     'required_classes': {'all': ['not-attached:EINVAL-oversize-program', 'not-attached:EINVAL-unknown-flag-bits', 'not-attached:EACCES-no-privilege', 'not-attached:thread-sync-refused', 'not-attached:ENOSYS-seccomp-unavailable',
-                                 'pre-kernel-failure-with-nnp-requested', 'supported-probe', 'supported-after-a-load', 'attached', 'thread-sync-attached', 'uid:0', 'uid:65534']},
+                                 'pre-kernel-failure-with-nnp-requested', 'supported-probe', 'supported-after-a-load', 'attached', 'thread-sync-attached', 'uid:0', 'uid:65534',
+                                 'attached:policy-that-denies-nothing', 'overlapping-loads:interrupted-attached', 'overlapping-loads:interrupting-attached']},
     'units': [
         {'test': 'TestC09Histories', 'checks': {'quick': 640, 'thorough': 60000}, 'shards': {'quick': 16, 'thorough': 16}, 'helpers': _KCHILD,
          'timeout': {'quick': 400, 'thorough': 3300}},
@@ -327,7 +332,8 @@ PROPS['C10'] = {
              'N >= 2, at least two different states are present and at least one thread was inside a system call; 1/4 of the plans carry a fault: another (or the same) thread loaded a filter without thread-sync before (same or different policy), or seccomp(2) answers ENOSYS in the whole process; distinct by hash of the case JSON'),
     'assumptions': _KERNEL_ASSUMPTIONS + ['schedules are sampled by perturbation (thread states, GOMAXPROCS, delays), not enumerated: the harness does not own the kernel scheduler'],
     'required_classes': {'all': ['flag:0', 'flag:1', 'flag:2', 'flag:3', 'state:spin', 'state:nanosleep', 'state:read', 'state:futex', 'state:spawner', 'thread-created-after-load',
-                                 'threads>=25', 'strace-flags-word', 'fault:seccomp-ENOSYS', 'fault:another-thread-carries-its-own-filter'],
+                                 'threads>=25', 'strace-flags-word', 'fault:seccomp-ENOSYS', 'fault:another-thread-carries-its-own-filter',
+                                 'policy-with-log-action', 'load-without-thread-sync-after-one-with'],
                          'thorough': ['threads:64']},
     'units': [
         {'test': 'TestC10ThreadSync', 'checks': {'quick': 400, 'thorough': 32000}, 'shards': {'quick': 16, 'thorough': 16}, 'helpers': _KCHILD,
